@@ -23,8 +23,9 @@ use unicode_segmentation::UnicodeSegmentation;
 const FUEL: usize = 400;
 
 /// Findings whose entry in known_findings.json has status "fixed": the generator then produces the
-/// formerly avoided shape again and the model side uses the repaired semantics, so the fix is
-/// checked from then on (bit 0: F-C13-1, bit 1: F-C13-2, bit 2: F-C13-3).
+/// formerly avoided shape again, so the fix is checked from then on (bit 1: F-C13-2 copies of
+/// pipelines containing peekable, bit 2: F-C13-3 copies over @next objects). F-C13-1 (bit 0) needs no
+/// switch: the model's ByteIterator mirrors the repaired code and host-bytes cases are always generated.
 static FIXED: std::sync::atomic::AtomicU8 = std::sync::atomic::AtomicU8::new(0);
 fn is_fixed(bit: u8) -> bool {
     FIXED.load(std::sync::atomic::Ordering::Relaxed) & (1 << bit) != 0
@@ -174,6 +175,8 @@ enum Cons {
     Calls(Vec<bool>),     // true = next, false = next_back
     Advance(usize),
     Copy(usize, bool),
+    /// `.peekable()` on the pipeline, then operations n = next, b = next_back, p = peek, q = peek_back
+    PeekOps(Vec<char>),
 }
 
 impl Cons {
@@ -186,6 +189,7 @@ impl Cons {
             }
             Cons::Advance(n) => format!("(advance {})", n),
             Cons::Copy(k, f) => format!("(copy {} {})", k, *f as u8),
+            Cons::PeekOps(ops) => format!("(peekops{})", ops.iter().map(|o| format!(" {}", o)).collect::<String>()),
         }
     }
     /// needs `it` to be a KIterator that keeps its position between statements
@@ -220,6 +224,21 @@ impl Cons {
                 let mut v = vec!["r = []".to_string()];
                 for d in ds {
                     v.push(format!("x = it.{}()", if *d { "next" } else { "next_back" }));
+                    v.push("r.push(if x then x.get() else 'END')".into());
+                }
+                v.push("r".into());
+                v
+            }
+            Cons::PeekOps(ops) => {
+                let mut v = vec!["r = []".to_string()];
+                for o in ops {
+                    let m = match o {
+                        'n' => "next",
+                        'b' => "next_back",
+                        'p' => "peek",
+                        _ => "peek_back",
+                    };
+                    v.push(format!("x = it.{}()", m));
                     v.push("r.push(if x then x.get() else 'END')".into());
                 }
                 v.push("r".into());
@@ -289,9 +308,7 @@ fn render_src(s: &Src, id: usize, defs: &mut Vec<String>) -> (String, String) {
         Src::RepInf(v) => (format!("iterator.repeat({})", v.koto()), format!("(repinf {})", v.canon())),
         Src::HostBytes(n) => {
             let bs: Vec<V> = (0..*n).map(|i| V::I(97 + i as i64)).collect();
-            // once ByteIterator::next_back is repaired it is an ordinary double-ended cursor
-            let kind = if is_fixed(0) { "seq" } else { "hostbytes" };
-            (format!("host_bytes({})", n), format!("({}{})", kind, canon_list(&bs)))
+            (format!("host_bytes({})", n), format!("(hostbytes{})", canon_list(&bs)))
         }
     };
     defs.push(format!("{} = {}", var, def));
@@ -612,7 +629,9 @@ fn make_case(p: &Pipe, c: &Cons) -> Case {
     let mut lines = r.defs.clone();
     let direct = matches!(c, Cons::Simple("for") | Cons::Simple("unpack"));
     let bare_container = matches!(p, Pipe::Src(Src::List(_) | Src::Tuple(_) | Src::Map(_) | Src::Str(_) | Src::Range(..)));
-    if c.needs_iter() || (bare_container && !direct) {
+    if let Cons::PeekOps(_) = c {
+        lines.push(format!("it = {}.peekable()", r.expr));
+    } else if c.needs_iter() || (bare_container && !direct) {
         // a KIterator that keeps its position / the iterator module's function rather than the
         // container's own method of the same name
         lines.push(format!("it = {}.iter()", r.expr));
@@ -622,7 +641,9 @@ fn make_case(p: &Pipe, c: &Cons) -> Case {
     lines.push("emit 9".into());
     lines.extend(c.koto());
     let script = lines.join("\n");
-    let uses_back = p.any(&|q| matches!(q, Pipe::Reversed(_))) || matches!(c, Cons::Calls(ds) if ds.iter().any(|d| !*d));
+    let uses_back = p.any(&|q| matches!(q, Pipe::Reversed(_)))
+        || matches!(c, Cons::Calls(ds) if ds.iter().any(|d| !*d))
+        || matches!(c, Cons::PeekOps(ops) if ops.iter().any(|o| *o == 'b' || *o == 'q'));
     Case {
         request: format!("run {} {} {}", FUEL, c.sexp(), r.sexp),
         script,
@@ -638,7 +659,14 @@ fn admissible(p: &Pipe, c: &Cons) -> bool {
     if !p.safe() {
         return false;
     }
-    let bounded_consumer = matches!(c, Cons::Calls(_) | Cons::Simple("unpack"));
+    let bounded_consumer = matches!(c, Cons::Calls(_) | Cons::Simple("unpack") | Cons::PeekOps(_));
+    if let Cons::PeekOps(ops) = c {
+        // peek_back / next_back on a Peekable over a forward-only iterator: shape of finding F-C13-4
+        // (and an error for @next objects), not generated unless the finding is fixed
+        if ops.iter().any(|o| *o == 'b' || *o == 'q') && !bidir_pipe(p) && !is_fixed(3) {
+            return false;
+        }
+    }
     if p.infinite() && !bounded_consumer {
         return false;
     }
@@ -661,6 +689,19 @@ fn admissible(p: &Pipe, c: &Cons) -> bool {
         }
     }
     true
+}
+
+/// `is_bidirectional()` of the iterator the pipeline builds (mirrors `Pipe.bidir` of the model)
+fn bidir_pipe(p: &Pipe) -> bool {
+    match p {
+        Pipe::Src(s) => matches!(
+            s,
+            Src::List(_) | Src::Tuple(_) | Src::Map(_) | Src::Range(..) | Src::Str(_) | Src::ObjB(_) | Src::HostBytes(_)
+        ),
+        Pipe::Each(_, q) | Pipe::Skip(_, q) | Pipe::Peekable(q) => bidir_pipe(q),
+        Pipe::Reversed(_) => true,
+        _ => false,
+    }
 }
 
 fn elems(flavour: usize, n: usize, base: i64) -> Vec<V> {
@@ -787,6 +828,9 @@ fn consumer_table() -> Vec<Cons> {
     for k in [0, 1, 3] {
         v.push(Cons::Copy(k, true));
         v.push(Cons::Copy(k, false));
+    }
+    for ops in ["ppnpn", "pnnnnp", "pqnbpq", "qpbnnb", "qqbpnn", "npqbnbq", "bqpnpq"] {
+        v.push(Cons::PeekOps(ops.chars().collect()));
     }
     v
 }
@@ -1024,6 +1068,7 @@ fn main() {
                 Some("F-C13-1") => fixed |= 1,
                 Some("F-C13-2") => fixed |= 2,
                 Some("F-C13-3") => fixed |= 4,
+                Some("F-C13-4") => fixed |= 8,
                 _ => {}
             }
         }
@@ -1184,6 +1229,8 @@ fn main() {
         Cons::By("find", "even"),
         Cons::Copy(1, true),
         Cons::Simple("unpack"),
+        Cons::PeekOps("pnpqbnq".chars().collect()),
+        Cons::PeekOps("ppnnpn".chars().collect()),
     ];
     for kind in 0..SRC_KINDS {
         for n in 0..=max_len {
@@ -1228,7 +1275,7 @@ fn main() {
         json!({"adaptor_instances": ads.len(), "consumer_instances": conss.len(), "source_kinds": SRC_KINDS,
                "source_lengths": format!("0..={}", max_len),
                "depth0": "consumers x kinds x lengths x flavours",
-               "depth1": "adaptor instances x kinds x lengths x 7 consumers",
+               "depth1": "adaptor instances x kinds x lengths x 9 consumers",
                "depth2": format!("adaptor instances^2 x kinds {:?} x lengths {:?} x to_list", d2_kinds, d2_lens)}),
     );
 
@@ -1241,7 +1288,14 @@ fn main() {
         tries += 1;
         let depth = 1 + rng.weighted(&[1, 3, 4, 4]);
         let p = random_pipe(&mut rng, depth, max_len, &ads);
-        let c = if rng.chance(2, 5) { Cons::Simple("tolist") } else { rng.pick(&conss).clone() };
+        let c = if rng.chance(2, 5) {
+            Cons::Simple("tolist")
+        } else if rng.chance(1, 8) {
+            let n = 3 + rng.below(6);
+            Cons::PeekOps((0..n).map(|_| *rng.pick(&['n', 'b', 'p', 'q', 'p', 'n'])).collect())
+        } else {
+            rng.pick(&conss).clone()
+        };
         if p.depth() > 4 || !admissible(&p, &c) {
             continue;
         }
